@@ -568,8 +568,12 @@ pub fn orswot_args(rng: &mut Rng, _r: usize) -> String {
     }
 }
 
+/// nested-oracle profiles use API-derived remove contexts only (no hand-made ones)
+static NO_RMCTX: std::sync::atomic::AtomicBool = std::sync::atomic::AtomicBool::new(false);
+
 fn map_rm_args(rng: &mut Rng) -> String {
-    match rng.below(8) {
+    let top = if NO_RMCTX.load(std::sync::atomic::Ordering::Relaxed) { 7 } else { 8 };
+    match rng.below(top) {
         0..=4 => format!("rm {}", rng.below(3)),
         5 | 6 => format!("rmread {}", rng.below(3)),
         _ => {
@@ -903,6 +907,35 @@ pub fn main(args: &[String]) {
                 }
             }
             hist_cases(&mut out, &mut rng, &h, cases, &mut orswot_args);
+        }
+        // nested-content oracles (convergence, merge laws, merge-vs-ops, absorption) on Map: the region where the crate
+        // is KNOWN to fail (known_findings.json); used by the thorough tier to enumerate that region and to find witnesses
+        "map_nested_causal_ops" | "map_nested_causal_merge" | "map_nested_fifo_ops" => {
+            NO_RMCTX.store(true, std::sync::atomic::Ordering::Relaxed);
+            let tys = ["map_mvreg", "map_orswot", "map_map_mvreg"];
+            let per = (cases + 2) / 3;
+            for ty in tys {
+                let disc = if profile == "map_nested_fifo_ops" { Disc::Fifo } else { Disc::Causal };
+                let mut h = Hist::new(ty, disc);
+                h.max_rep = 3;
+                h.max_steps = 14;
+                h.w_gen = 36;
+                h.w_dup = 4;
+                h.w_absorb = 3;
+                if profile == "map_nested_causal_merge" {
+                    h.w_merge = 10;
+                    h.w_snap = 4;
+                    h.w_laws = 5;
+                    h.w_mu = 5;
+                }
+                h.end_oracle = true;
+                let f: &mut dyn FnMut(&mut Rng, usize) -> String = match ty {
+                    "map_mvreg" => &mut map_mvreg_args,
+                    "map_orswot" => &mut map_orswot_args,
+                    _ => &mut map_map_mvreg_args,
+                };
+                hist_cases(&mut out, &mut rng, &h, per, f);
+            }
         }
         "map_corr" => {
             // model/implementation correspondence for all three Map instantiations: every command kind, all disciplines
